@@ -192,3 +192,27 @@ fn u3_control_point_clamps() {
     assert!(d.bpm_multiplier >= 0.1 && d.bpm_multiplier <= 100.0, "C06 bpm multiplier inside [0.1, 100]");
     assert!(d.generate_ticks == !beat_len.is_nan(), "C06 generate_ticks false exactly for NaN beat length");
 }
+
+//@ obl: id=U4.decode.point_split harness=u4_point_split_cleared props=C11 tier=quick kind=proof
+//@ fns: BeatmapState::point_split
+//@ bound: loop-free apart from the two-element extend (unwind 5 certified); the closure result (success / failure) is symbolic
+//@ clause: the borrowed-pointer scratch buffer is empty again when point_split returns - whether the closure succeeds or fails - so no `*const str` into a finished line survives; inside the closure the slice has exactly the pushed strings
+#[kani::proof]
+#[kani::unwind(5)]
+fn u4_point_split_cleared() {
+    let mut st = <BeatmapState as DecodeState>::create(14);
+    let fail: bool = kani::any();
+    let parts = ["12:34", "56:78"];
+    let r: Result<(), ParseBeatmapError> = st.point_split(parts.into_iter(), |this, split| {
+        assert!(split.len() == 2 && this.point_split.len() == 2, "C11 the closure sees exactly the strings of this line");
+        assert!(split[0].len() == 5 && split[1].len() == 5, "C11 pointers are read back as the pushed strings");
+        if fail {
+            Err(ParseBeatmapError::InvalidHitObjectLine)
+        } else {
+            Ok(())
+        }
+    });
+    assert!(r.is_err() == fail, "C11 closure result is passed through");
+    assert!(st.point_split.is_empty(), "C11 scratch buffer is cleared after every use, including failed lines");
+    std::mem::forget(st);
+}
